@@ -54,6 +54,7 @@ type pruneFacts struct {
 }
 
 func runPrune(t *rapid.T) {
+	commitAsFastSync = false
 	vstat.Eval()
 	isTrie := rapid.Bool().Draw(t, "isTrie")
 	a0 := world.DetAcct(100)
